@@ -26,6 +26,15 @@ import (
 func (k *KVStore) evictTable(t *table.Table) error {
 	var total int
 	var evictErr error
+
+	// Never evict the active table into itself. The entries would be re-inserted
+	// to the same table and deleted right after that. Open a new table first.
+	if len(k.tables) != 0 && k.tables[len(k.tables)-1] == t {
+		if err := k.makeTable(); err != nil {
+			return err
+		}
+	}
+
 	t.Range(func(hkey uint64, e storage.Entry) bool {
 		entry, _ := t.GetRaw(hkey)
 		err := k.PutRaw(hkey, entry)
